@@ -1191,8 +1191,9 @@ static Value builtin_array_pop(Value *args) {
     DynArray *arr = args[0].as.dyn_array_val;
     
     if (dyn_array_length(arr) == 0) {
-        fprintf(stderr, "Error: array_pop() on empty array\n");
-        return create_void();
+        /* Same policy as at()/array_set(): fail fast, no value is produced. */
+        fprintf(stderr, "Runtime Error: array_pop() on empty array\n");
+        exit(1);
     }
     
     /* Pop element based on type */
